@@ -332,12 +332,12 @@ def r2(ctx, cfg):
                 # `let Some(s) = entry else { panic!(..) }`: the same reliance on the invariant, spelled out
                 why = "justified by the pairing invariant C14.R1 (explicit panic on a missing STAKES entry)"
                 n_inv += 1
-            elif k == "std::option::Option::unwrap" and root == SK + "process_queue":
+            elif k in ("std::option::Option::unwrap", "std::option::Option::expect") and root == SK + "process_queue":
                 o = peel(a[0])
                 front_some = any(c2[0] == "variant_in" and c2[2] == ("Some",) and peel(c2[1])[0] == "call" and peel(c2[1])[1].endswith("VecDeque::front") for e, c2 in conds)
                 if o[0] == "call" and o[1].endswith("VecDeque::pop_front") and front_some:
                     why = "pop_front().unwrap() is dominated by front() == Some(_) on the same queue"
-            elif k == "std::option::Option::unwrap" and root == SK + "slash":
+            elif k in ("std::option::Option::unwrap", "std::option::Option::expect") and root == SK + "slash":
                 o = peel(a[0])
                 upd = any(c2[0] == "variant_in" and c2[2] in (("Continue",), ("Ok",)) and peel(c2[1])[0] == "call" and peel(c2[1])[1] == SK + "update_rewards" for e, c2 in conds)
                 if contains(o, lambda x: x[0] == "call" and x[1] == "cw_storage_plus::Map::may_load" and peel(x[2][0]) == VINFO) and upd:
